@@ -16,6 +16,8 @@ HEADERS = [
     ("arrow_default", "a, sep='->'", [("a", "int"), ("sep", "str")], None),
     ("callable_ann", "cb: Callable[[int], int], n: int", [("cb", "Callable[[int], int]"), ("n", "int")], "int"),
     ("posonly", "a, /, b", [("a", "int"), ("b", "int")], None),
+    ("posonly_defaults", "a=1, b=2, /, c=3", [("a", "int"), ("b", "int"), ("c", "int")], None),
+    ("posonly_defaults_annotated", "a: int = 1, /, b: int = 2, *, c: int = 3", [("a", "int"), ("b", "int"), ("c", "int")], "int"),
     ("annotated_nodefault", "a: int, b: str", [("a", "int"), ("b", "str")], "bool"),
     ("arrow_default_annotated", "a: int, sep: str = '->'", [("a", "int"), ("sep", "str")], "int"),
 ]
